@@ -112,14 +112,14 @@ MUTANTS = [
     ("c03-zuko-logprob-jac-sign", ["C03"], S + "flows/torch/flows.py",
      "            log_prob = self._flow().log_prob(x_prime) + log_abs_det_jacobian", "            log_prob = self._flow().log_prob(x_prime) - log_abs_det_jacobian"),
     ("c03-zuko-sample-jac-sign", ["C03"], S + "flows/torch/flows.py",
-     "        return xp.asarray(x), xp.asarray(log_prob - log_abs_det_jacobian)", "        return xp.asarray(x), xp.asarray(log_prob + log_abs_det_jacobian)"),
+     "        return asarray(x, xp), asarray(log_prob - log_abs_det_jacobian, xp)", "        return asarray(x, xp), asarray(log_prob + log_abs_det_jacobian, xp)"),
     ("c03-zuko-sample-no-inverse-rescale", ["C03"], S + "flows/torch/flows.py",
      "        x, log_abs_det_jacobian = self.inverse_rescale(x_prime)\n        return xp.asarray(x), xp.asarray(log_prob - log_abs_det_jacobian)",
      "        x, log_abs_det_jacobian = self.inverse_rescale(x_prime)\n        return xp.asarray(x_prime), xp.asarray(log_prob - log_abs_det_jacobian)"),
     ("c03-flowjax-logprob-drops-jac", ["C03"], S + "flows/jax/flows.py",
-     "        return xp.asarray(log_prob + log_abs_det_jacobian)", "        return xp.asarray(log_prob)"),
+     "        return asarray(log_prob + log_abs_det_jacobian, xp)", "        return asarray(log_prob, xp)"),
     ("c03-flowjax-sample-jac-sign", ["C03"], S + "flows/jax/flows.py",
-     "        return xp.asarray(x), xp.asarray(log_prob - log_abs_det_jacobian)", "        return xp.asarray(x), xp.asarray(log_prob + log_abs_det_jacobian)"),
+     "        return asarray(x, xp), asarray(log_prob - log_abs_det_jacobian, xp)", "        return asarray(x, xp), asarray(log_prob + log_abs_det_jacobian, xp)"),
     ("c03-drop-unit-scale-jac", ["C03", "C04"], S + "transforms.py",
      "        y, log_j_unit = self.to_unit_interval(x)\n        y = self.xp.clip(y, self.eps, 1.0 - self.eps)\n        y = erfinv(2 * y - 1) * math.sqrt(2)\n        log_abs_det_jacobian = 0.5 * (math.log(2 * math.pi) + y**2).sum(-1)\n        log_abs_det_jacobian = log_abs_det_jacobian + log_j_unit",
      "        y, log_j_unit = self.to_unit_interval(x)\n        y = self.xp.clip(y, self.eps, 1.0 - self.eps)\n        y = erfinv(2 * y - 1) * math.sqrt(2)\n        log_abs_det_jacobian = 0.5 * (math.log(2 * math.pi) + y**2).sum(-1)"),
@@ -160,8 +160,8 @@ MUTANTS = [
     ("c12-stale-sampler-type", ["C12", "C14"], S + "aspire.py",
      "        self._last_sampler_type = sampler\n        # Auto-checkpoint", "        # Auto-checkpoint"),
     ("c12-checkpoint-every-ignored-in-auto", ["C12"], S + "aspire.py",
-     "            checkpoint_every = defaults[\"every\"]\n            checkpoint_save_config = defaults[\"save_config\"]\n        flow_version",
-     "            checkpoint_save_config = defaults[\"save_config\"]\n        flow_version"),
+     "            checkpoint_every = defaults[\"every\"]\n            checkpoint_save_config = defaults[\"save_config\"]\n        elif defaults",
+     "            checkpoint_save_config = defaults[\"save_config\"]\n        elif defaults"),
     # ---- C11
     ("c11-rng-not-restored", ["C11"], S + "samplers/smc/base.py",
      "        if rng_state is not None and hasattr(self.rng, \"bit_generator\"):\n            self.rng.bit_generator.state = rng_state\n", ""),
